@@ -10,6 +10,8 @@ def check(ctx, rep):
     env = intervals.Env(prog)
     # T-NEW: BoundSet::new = validity of a cut pair
     rows = intervals.table_new(prog, env)
+    if any("inconclusive" in r for r in rows):
+        new_witness(rep, prog, env)
     blame_rows(rep, "T-NEW", "range::BoundSet::new", rows, prog, env, 17,
                "BoundSet::new returns Some exactly for lower cut < upper cut and stores its arguments")
     # T-ORD: same-kind cells of Bound::cmp are the cut order (what max/min/<= rely on)
@@ -58,6 +60,19 @@ def _pre_worker(chunk):
                 if s_ is not True:
                     problem = "does not admit %s%s, which satisfies both operands" % (minver.vstr(v), " (a prerelease)" if v[3] else "")
                     break
+            if problem is None:
+                # release versions: satisfied exactly when both operands are
+                for v in probes:
+                    if v[3] or v in both:
+                        continue
+                    it2 = Interp(prog, minver.MinPolicy(), overrides={})
+                    try:
+                        s_ = it2.call_body("range::Range::satisfies", [Ptr(Cell(r.fields[0])), Ptr(Cell(minver.mk_version(prog, "v", v)))])
+                    except (Inconclusive, Panic):
+                        continue
+                    if s_ is True:
+                        problem = "admits the release %s, which does not satisfy both operands" % minver.vstr(v)
+                        break
         out.append(("ok", None, text) if problem is None else ("bad", problem, text))
     return out
 
@@ -78,6 +93,12 @@ def prerelease_clause(ctx, rep, prog, env):
     cases = [(A, B) for A in two[::(1 if ctx.thorough else 4)] for B in ones[::(1 if ctx.thorough else 3)]]
     cases += [(B, A) for A, B in cases[::5]]
     cases += [(A, A) for A in two[::(1 if ctx.thorough else 2)]]          # idempotence, with overlapping alternatives
+    # punctured ranges (`<v || >v`, `<=v || >v`, `<v || >=v`) against everything and against themselves
+    star = (("U", None), ("U", None))
+    for v in [x for x in minver.bound_universe(True) if not x[3]]:
+        for uk, lk in (("E", "E"), ("I", "E"), ("E", "I")):
+            P_ = [(("U", None), (uk, v)), ((lk, v), ("U", None))]
+            cases += [(P_, [star]), ([star], P_), (P_, P_)]
     rep.rule(rule, 500, "every probe version satisfying both operands satisfies Range::intersect's result (real ranges over a "
                         "small universe, prerelease bounds included)")
     _PS.update(prog=prog, env=env, probes=minver.probe_universe())
@@ -101,6 +122,50 @@ def prerelease_clause(ctx, rep, prog, env):
                     rep.fail(rule, "range::Range::intersect|%s|%s" % (rule, detail.split(" ")[0] + " " + detail.split(" ")[1]),
                              "%s %s" % (text, detail), example=text)
     rep.analysed_item("Range::intersect on %d pairs of concrete ranges, results probed with %d versions" % (len(cases), len(_PS["probes"])))
+
+
+def new_witness(rep, prog, env):
+    """BoundSet::new computes on the versions themselves (successors, fields): the order abstraction does not apply.
+    Witness search on concrete bounds from a universe that contains a version together with its immediate successors
+    (`v`, `v-0`, `v-0.0`, the next patch and its `-0`): Some exactly when the cut of the lower bound lies below the cut of
+    the upper bound, with both bounds returned unchanged. A mismatch is genuine."""
+    from .. import minver
+    from ..interp import Cell, Inconclusive, Interp, Panic, Ptr, is_some
+    rule = "T-NEW-WITNESS"
+    rep.rule(rule, 0, "witness search for BoundSet::new on concrete bounds (versions next to each other in precedence)")
+    U = minver.bound_universe(False)
+    lows = [("U", None)] + [(k, v) for k in "IE" for v in U]
+    n = bad = 0
+    for lk, lv in lows:
+        for uk, uv in lows:
+            pol = minver.MinPolicy()
+            pol.witness = True
+            it = Interp(prog, pol, overrides={})
+            lo = env.bound("L", lk, minver.mk_version(prog, "lo", lv) if lv else None)
+            up = env.bound("U", uk, minver.mk_version(prog, "up", uv) if uv else None)
+            try:
+                r = it.call_body("range::BoundSet::new", [lo, up])
+            except (Inconclusive, Panic):
+                continue
+            n += 1
+            if lk == "U" or uk == "U":
+                exp = True
+            else:
+                c = minver.vcmp(lv, uv)
+                pl, pu = (0 if lk == "I" else 1), (1 if uk == "I" else 0)
+                exp = c < 0 or (c == 0 and pl < pu)
+            if is_some(r) == exp:
+                rep.ok(rule)
+                continue
+            bad += 1
+            if bad <= 3:
+                text = "%s%s %s%s" % ({"I": ">=", "E": ">", "U": ""}[lk], minver.vstr(lv) if lv else "*",
+                                      {"I": "<=", "E": "<", "U": ""}[uk], minver.vstr(uv) if uv else "")
+                rep.fail(rule, "range::BoundSet::new|%s|%s" % (rule, "interval refused" if exp else "empty interval accepted"),
+                         "BoundSet::new answers %s for `%s`, which %s" % ("Some" if is_some(r) else "None", text,
+                                                                         "holds a version" if exp else "is empty"),
+                         example=text)
+    rep.analysed_item("witness search for BoundSet::new: %d pairs of concrete bounds, %d mismatches" % (n, bad))
 
 
 def t_ord(rep, prog, env):
